@@ -167,7 +167,7 @@ func setupEnv() {
 
 func applyEnv(m map[string]string) {
 	for k, v := range m {
-		if strings.HasPrefix(k, "C17_") && k != "C17_UNSET" {
+		if strings.HasPrefix(strings.ToUpper(k), "C17_") && k != "C17_UNSET" {
 			if cur, ok := os.LookupEnv(k); !ok || cur != v {
 				_ = os.Setenv(k, v)
 			}
